@@ -355,3 +355,24 @@ PROPS["C10"] = dict(
     prereq_note=["C14 read_all_words", "C06 sender layout lemmas"],
     outside=RX_OUTSIDE + ["tails longer than the byte-string bound minus the packet"],
 )
+
+PROPS["C12"] = dict(
+    claim="Bounded model checking of DefaultCrc on the compiled code against a bitwise CRC-32/MPEG-2 reference: (a) for ALL 2^40 (total length, protocol type, byte) "
+          "triples, appending one PDU byte (and likewise one label byte) applies exactly one MSB-first polynomial-0x04C11DB7 step to the register — the register after "
+          "four arbitrary prefix bytes ranges over all 2^32 states, so every table index is exercised in every state; (b) the 4-byte prefix is total length then protocol "
+          "type, big endian, from 0xFFFFFFFF; (c) differential equality for label length 0/3/6 and PDU <= 8 (16) bytes; (d) the catalogue check value; (e) wiring: the "
+          "sender hands the calculator (whole PDU, protocol type, 2 + written label + PDU, label as written) once per first fragment and puts its result big-endian at the "
+          "end of the end fragment; the receiver hands it (reassembled bytes, first fragment's fields, no label after re-use).",
+    note="Trusted: Kani/CBMC/CaDiCaL. Lengths beyond the differential bound follow from (a)+(b) by induction over Iterator::fold — an argument about the fold, not a solver result.",
+    harnesses=[H("c12::header_prefix", bounds="all 2^32 (total length, protocol type) pairs", unwind=4, cost=15),
+               H("c12::byte_step_pdu", bounds="all (total length, protocol type, byte) triples", unwind=4, cost=15),
+               H("c12::byte_step_label", bounds="all (total length, protocol type, byte) triples", unwind=4, cost=15),
+               H("c12::differential", bounds="label length 0/3/6, PDU length 0..=8 (thorough 16), all bytes", unwind=18, cost=60, timeout=900),
+               H("c12::check_value", bounds="catalogue check string 123456789", unwind=5, cost=5),
+               H("c12::sender_wiring", bounds="PDU <= 12, buffer <= 24, any label / sender state; RecCrc records the call", unwind=8, cost=30),
+               H("c06::encap_frag_bytes", bounds=BYTE_TIER + " (CRC trailer = context CRC, big endian, last four bytes)", cost=10, timeout=600),
+               T("c12::twin_byte_step", cost=2)] + rx_members(["end_match", "end_match_ext"]),
+    functions=["dvb_gse_rust::crc::DefaultCrc::calculate_crc32", "dvb_gse_rust::crc::crc32"] + ENCAP_FNS[:2] + DECAP_FNS[:1],
+    assumptions=COMMON_ASSUME + ["spec.rs::crc_bit_step is the reference (eight explicit shift/xor steps); anchored by the catalogue check value 0x0376E6E7"],
+    outside=["PDUs longer than 16 bytes in the differential member (covered by the induction argument)"],
+)
